@@ -329,6 +329,10 @@ class Model:
                             if e2.kind in ("other", "hocall") and e2.callee.endswith("::push"):
                                 for a in e2.args[1:]:
                                     out.append((None, a))
+                            if e2.kind in ("other", "hocall") and e2.callee.endswith("iter::once"):
+                                # `old.iter().cloned().chain(iter::once(x)).collect()`: x is appended
+                                for a in e2.args:
+                                    out.append((None, a))
         return out
 
     # ---------------- cells
